@@ -8,7 +8,7 @@ from .. import canon, gen
 from ..core import call_real
 
 ID = "C11"
-LEAN_MODULE = "CKT.Props.C11Meas"
+LEAN_MODULE = "CKT.Props.C11Walsh"
 THEOREMS = [
     "CKT.C11.mergeLetters_spec", "CKT.C11.go_spec", "CKT.C11.mostGeneral_spec", "CKT.C11.mostGeneral_refuses_empty",
     "CKT.C11.mergeLetters_incompatible", "CKT.C11.maskGo_testBit", "CKT.C11.maskOf_testBit", "CKT.C11.mem_pauliIndices",
@@ -16,6 +16,11 @@ THEOREMS = [
     # shape of the appended measurement block (Props/C11Meas): per measured qubit one basis rotation on that qubit (h / sx / none) directly
     # followed by its measurement into its own bit; the explicit-locations form with the identity map is the default form
     "CKT.C11.measBlock_spec", "CKT.C11.measurementInstrs_measures", "CKT.C11.appendMeasurementLoc_identity",
+    # T11.4 (Walsh identity) in the Pauli-expectation semantics: signed-measurement lemma, one block, all blocks, and the statement for the
+    # circuit `_append_measurement_circuit` appends; hypotheses satisfiable (qMeasSem) and tied to the channel model's gate table
+    "CKT.Sem.meas_signed", "CKT.Sem.block_decode", "CKT.Sem.decode_blocks", "CKT.C11.measurementInstrs_blocks", "CKT.C11.decode_measurement",
+    "CKT.C11.memberStr_at", "CKT.C11.memberStr_off", "CKT.C11.qMeasSem", "CKT.Sem.stdProj_is_channel_ptm", "CKT.Sem.marker_is_signed_projectors",
+    "CKT.Sem.h_rows", "CKT.Sem.sx_rows",
 ]
 RULE = ("Pauli lists on 1-6 qubits (duplicates, all-identity, mutually anticommuting sets, up to 40 entries) through ObservableCollection, "
         "most_general_observable (and the construct_general_observables hook) on compatible and incompatible lists incl. members clashing on 1-4 qubits "
